@@ -5,4 +5,5 @@
 
 pub mod dim;
 pub mod prefix;
+pub mod qty;
 pub mod vm;
